@@ -307,6 +307,11 @@ def evaluate_cases(mod, cases, timeout):
     """returns (findings, stats) for a list of cases"""
     findings = []
     impl_replies = [run_impl_case(mod, c, timeout) for c in cases]
+    # a `timeout` reply is only believed when it repeats with three times the allowance (a cold cache / loaded machine
+    # must not turn a slow first call into a "did not return")
+    for k, (c, irs) in enumerate(zip(cases, impl_replies)):
+        if 'timeout' in irs:
+            impl_replies[k] = run_impl_case(mod, c, 3 * timeout)
     flat = [l for c in cases for l in ([ '(sys reset)' ] + c['lines'])]
     model_flat = run_driver(flat)
     stats = dict(lines=0, agree=0, bad_op=0, errors={}, tags={})
@@ -347,6 +352,24 @@ def evaluate_cases(mod, cases, timeout):
     return findings, stats, impl_replies
 
 
+def warm_up():
+    """touch the lazily imported parts of the stack once, outside any alarm (first calls on a cold sandbox take seconds)"""
+    try:
+        import numpy, pandas, dateutil.parser, asyncio, inspect   # noqa: F401
+        import pyg_base
+        pyg_base.dt('2020-01-02')
+        pyg_base.dt(2020, 1, 2)
+        d = pyg_base.dictable(a=[1, 2], b=['x', None])
+        d.sort('a')
+        d.join(d, 'a')
+        s = pandas.Series([1.0, numpy.nan], pandas.DatetimeIndex(['2020-01-01', '2020-01-02']))
+        pyg_base.df_fillna(s, 'ffill')
+        pyg_base.add_(s, s)
+        pyg_base.drange(pyg_base.dt(2020, 1, 1), pyg_base.dt(2020, 1, 5), '1b')
+    except Exception:
+        pass
+
+
 def run_check(pid, tier, seed, replay=None):
     t0 = time.time()
     mod = importlib.import_module('pv.props.' + pid.lower())
@@ -354,6 +377,7 @@ def run_check(pid, tier, seed, replay=None):
     rng = random.Random('%s-%s-%d' % (pid, tier, seed))
     timeout = getattr(mod, 'CALL_TIMEOUT', 5)
     broken, audit = sync_and_build(log, tier, pid)
+    warm_up()
 
     # proof obligations of this property
     ns = 'Pyg.Props.%s.' % pid
